@@ -267,8 +267,8 @@ fn run_history_from(
             }
         }
         // abstract state after the op
-        let abs: Vec<u64> = universe.iter().map(|u| u64::from(model.abs(*u))).collect();
         if universe.len() <= 8 {
+            let abs: Vec<u64> = universe.iter().map(|u| u64::from(model.abs(*u))).collect();
             states.insert(hash_u64s(&abs) ^ u64::from(arch.is_async()));
         }
     }
@@ -397,6 +397,19 @@ pub fn run(ctx: &mut Ctx) {
                 ops.push(Op::Reopen(true, R::CODECS[((i / 24 + 1) % 4) as usize]));
                 ctx.count("histories_with_more_than_65536_entries");
             }
+            let long_run = i % 24 == 10;
+            if long_run {
+                // one content on more than 2^20 consecutive ids (a single run-length entry) through save + reopen
+                let n = (1u64 << 20) + 40 + rng.below(100);
+                let base = 20_000_000u64;
+                for j in 0..n {
+                    ops.push(Op::Add(base + j, 1));
+                }
+                ids.extend([base, base + (1 << 20) - 1, base + (1 << 20), base + (1 << 20) + 1, base + n - 1, base + n]);
+                ops.push(Op::Reopen(i % 48 == 10, R::CODECS[((i / 24) % 4) as usize]));
+                ops.push(Op::Reopen(i % 48 != 10, R::CODECS[((i / 24 + 1) % 4) as usize]));
+                ctx.count("histories_with_a_run_beyond_2_pow_20");
+            }
             for j in 0..nops {
                 let r = rng.below(100);
                 if j % 50 == 49 {
@@ -438,7 +451,7 @@ pub fn run(ctx: &mut Ctx) {
                     ctx.inconclusive("C04: foreign generator produced an invalid start archive");
                 }
             } else {
-                run_history(ctx, i % 2 == 1, &ops, &pool, &universe, if huge { 50_000 } else { 25 }, &mut trans, &mut states);
+                run_history(ctx, i % 2 == 1, &ops, &pool, &universe, if huge || long_run { 5_000_000 } else { 25 }, &mut trans, &mut states);
             }
             ctx.case(fp, true);
             ctx.max("random_history_length", nops as u64);
